@@ -19,6 +19,8 @@ MUTATORS = {'set_n_ids', 'set_dim_names', 'set_parameter_names',
 OBSERVERS = {'compose_hier', 'compose_filter', 'compose_poppred',
              'compose_ll', 'compose_controller'}
 ALWAYS_OBSERVED = True
+BUDGET = {'quick': {'runs': 6000, 'wall': 70},
+          'thorough': {'runs': 300000, 'wall': 1500}}
 
 RULE = ('seeded generation of population-model compositions (kinds cycled by '
         'run index so every pair of kinds meets) and reconfiguration '
